@@ -199,7 +199,7 @@ fn trait_default_of(t: &Ty) -> Doc {
         Ty::Map { .. } => Doc::Obj(vec![]),
         Ty::Sc(Scalar::Bool) => Doc::Bool(false),
         Ty::Sc(Scalar::Str) => Doc::Str(String::new()),
-        Ty::Sc(Scalar::Unit) => Doc::Null,
+        Ty::Sc(Scalar::Unit) | Ty::Phantom => Doc::Null,
         Ty::Sc(s) if s.int_shape().map(|(_, _, nz)| !nz).unwrap_or(false) => Doc::Int(0),
         other => panic!("no trait default known for {other:?}"),
     }
@@ -306,10 +306,20 @@ impl<'a> Ctx<'a> {
         }
     }
 
-    fn validate(&mut self, on: bool, v: Option<Doc>, loc: &Loc) -> Option<Doc> {
+    fn validate(&mut self, on: bool, same_err: bool, v: Option<Doc>, loc: &Loc) -> Option<Doc> {
         let v = v?;
         if !on {
             return Some(v);
+        }
+        if same_err {
+            let sum = v.int_sum();
+            let ok = sum % 3 != 0;
+            self.call(UserCall::Validate { value: v.clone(), loc: loc.clone(), ok });
+            if ok {
+                return Some(v);
+            }
+            self.report(Sig::Unexpected { loc: loc.clone(), contains: vec![format!("validate-same:{sum}")] });
+            return None;
         }
         let sum = v.int_sum();
         let ok = sum % 3 != 0;
@@ -336,6 +346,7 @@ impl<'a> Ctx<'a> {
                 }
             },
             Ty::Json => self.eval_json(d, loc),
+            Ty::Phantom => Some(Doc::Null),
             Ty::P(t) => {
                 self.visit(loc);
                 self.eval(t, d, loc)
@@ -344,7 +355,8 @@ impl<'a> Ctx<'a> {
                 if *d == Doc::Null {
                     Some(Doc::Null)
                 } else {
-                    self.eval(t, d, loc)
+                    // a present content that dumps as null is told apart from `None` (see `Dump`)
+                    self.eval(t, d, loc).map(|x| if x == Doc::Null { crate::probe::some_null() } else { x })
                 }
             }
             Ty::Bx(t) => self.eval(t, d, loc),
@@ -549,12 +561,28 @@ impl<'a> Ctx<'a> {
                         self.report(Sig::Unexpected { loc: loc.clone(), contains: vec![format!("custom-unknown:{k}")] });
                         ok = false;
                     }
+                    Deny::CustomForeign => {
+                        self.call(UserCall::CustomUnknown { key: k.clone(), accepted: accepted.clone(), loc: loc.clone() });
+                        self.report(Sig::Foreign {
+                            loc: loc.clone(),
+                            src: ForeignSrc::Conv { fn_name: "custom_unknown_f".to_string(), arg: Doc::Str(k.clone()) },
+                            on: 0,
+                        });
+                        ok = false;
+                    }
                 }
             }
         }
         for (ix, (f, key)) in active.iter().enumerate() {
             if !present[ix] && !f.has_default() {
-                if f.missing_fn {
+                if f.missing_fn && f.missing_foreign {
+                    self.call(UserCall::CustomMissing { key: key.clone(), loc: loc.clone() });
+                    self.report(Sig::Foreign {
+                        loc: loc.clone(),
+                        src: ForeignSrc::Conv { fn_name: "custom_missing_f".to_string(), arg: Doc::Str(key.clone()) },
+                        on: 0,
+                    });
+                } else if f.missing_fn {
                     self.call(UserCall::CustomMissing { key: key.clone(), loc: loc.clone() });
                     self.report(Sig::Unexpected { loc: loc.clone(), contains: vec![format!("custom-missing:{key}")] });
                 } else {
@@ -599,7 +627,7 @@ impl<'a> Ctx<'a> {
                     return None;
                 };
                 let v = self.eval_fields(&s.fields, s.rename_all, s.deny, m, loc).map(Doc::Obj);
-                self.validate(s.validate, v, loc)
+                self.validate(s.validate, s.same_err, v, loc)
             }
             Item::Enum(e) => {
                 let v = match &e.tag {
@@ -656,7 +684,7 @@ impl<'a> Ctx<'a> {
                         }
                     }
                 };
-                self.validate(e.validate, v, loc)
+                self.validate(e.validate, e.same_err, v, loc)
             }
             Item::Conv(c) => {
                 let via = self.eval(&c.via, d, loc)?;
@@ -668,6 +696,10 @@ impl<'a> Ctx<'a> {
                             "$conv".to_string(),
                             Doc::Obj(vec![("try_from".to_string(), via)]),
                         )]))
+                    } else if c.same_err {
+                        // the function has no location to report at but the origin
+                        self.report(Sig::Unexpected { loc: vec![], contains: vec![format!("conv-same:c{i}_fn")] });
+                        None
                     } else {
                         self.report(Sig::Foreign {
                             loc: loc.clone(),
@@ -680,7 +712,7 @@ impl<'a> Ctx<'a> {
                     self.call(UserCall::ContainerConv { item: i, by_ref: c.by_ref, arg: via.clone(), ok: true });
                     Some(Doc::Obj(vec![("$conv".to_string(), Doc::Obj(vec![("from".to_string(), via)]))]))
                 };
-                self.validate(c.validate, v, loc)
+                self.validate(c.validate, c.same_err, v, loc)
             }
         }
     }
